@@ -106,8 +106,9 @@ Qed.
 Lemma wf_key_inv k : wf_key k = true -> wf_obj (k_obj k) = true /\ wf_rel (k_rel k) = true /\ wf_user (k_user k) = true.
 Proof. unfold wf_key. rewrite !andb_true_iff. tauto. Qed.
 
-Lemma wf_rec_inv r : wf_rec r = true -> wf_key (rec_key r) = true /\ mem c_colon (m_otype r) = false.
-Proof. unfold wf_rec. rewrite andb_true_iff, negb_true_iff. tauto. Qed.
+Lemma wf_rec_inv r :
+  wf_rec r = true -> wf_key (rec_key r) = true /\ mem c_colon (m_otype r) = false /\ wf_ctx (m_cctx r) = true.
+Proof. unfold wf_rec. rewrite !andb_true_iff, negb_true_iff. tauto. Qed.
 
 (* the heart of the matter: on well-formed keys the backend's pattern match is key equality *)
 Lemma match_wf r k :
@@ -143,9 +144,13 @@ Proof.
   eapply split_object_nocolon; eauto.
 Qed.
 
-Lemma new_rec_wf w : wf_key (w_key w) = true -> wf_rec (new_rec w) = true.
+Lemma new_rec_ctx w : m_cctx (new_rec w) = cond_ctx (w_cond w).
+Proof. unfold new_rec. destruct (split_object (k_obj (w_key w))). reflexivity. Qed.
+
+Lemma new_rec_wf w :
+  wf_key (w_key w) = true -> wf_ctx (cond_ctx (w_cond w)) = true -> wf_rec (new_rec w) = true.
 Proof.
-  intro H. unfold wf_rec. rewrite (new_rec_key w H), H, new_rec_nocolon. reflexivity.
+  intros H Hc. unfold wf_rec. rewrite (new_rec_key w H), H, new_rec_nocolon, new_rec_ctx, Hc. reflexivity.
 Qed.
 
 Lemma new_rec_obs w : wf_key (w_key w) = true -> rec_obs (new_rec w) = (w_key w, obs_cond (w_cond w)).
@@ -162,9 +167,12 @@ Lemma sanitize_deletes_len rs ig dels fl :
 Proof.
   revert fl; induction dels as [|d ds IH]; simpl; intros fl H.
   - inversion H; reflexivity.
-  - destruct (mfind rs d); [|destruct ig; [|discriminate]];
-      destruct (sanitize_deletes rs ig ds) as [e|fl']; try discriminate; inversion H; subst;
-      simpl; f_equal; apply IH; reflexivity.
+  - destruct (sanitize_deletes rs ig ds) as [e|fl'] eqn:E.
+    + destruct (mfind rs d); [discriminate|]. destruct ig; discriminate.
+    + assert (exists b, fl = b :: fl') as [b ->].
+      { destruct (mfind rs d); [eexists; inversion H; reflexivity|].
+        destruct ig; [eexists; inversion H; reflexivity|discriminate]. }
+      simpl. f_equal. apply IH. reflexivity.
 Qed.
 
 (* the write loop only appends: records and log grow by the same sub-sequence of the writes *)
@@ -205,3 +213,487 @@ Proof.
   simpl in Hm. apply andb_true_iff in Hm as [Hm _]. exists d. split; auto.
   apply in_combine_l in Hdf. exact Hdf.
 Qed.
+
+(* ---------------------------------------------------------------------------------------- *)
+(* List helpers                                                                             *)
+
+Lemma filter_map_comm {A B : Type} (f : A -> B) (p : B -> bool) (l : list A) :
+  map f (filter (fun x => p (f x)) l) = filter p (map f l).
+Proof. induction l as [|a l IH]; simpl; [reflexivity|]. destruct (p (f a)); simpl; rewrite IH; reflexivity. Qed.
+
+Lemma filter_ext_in' {A : Type} (p q : A -> bool) (l : list A) :
+  (forall x, In x l -> p x = q x) -> filter p l = filter q l.
+Proof.
+  induction l as [|a l IH]; simpl; intro H; [reflexivity|].
+  rewrite (H a (or_introl eq_refl)). rewrite IH; [reflexivity|]. intros x Hx. apply H. right. exact Hx.
+Qed.
+
+Lemma existsb_ext' {A : Type} (p q : A -> bool) (l : list A) :
+  (forall x, In x l -> p x = q x) -> existsb p l = existsb q l.
+Proof.
+  induction l as [|a l IH]; simpl; intro H; [reflexivity|].
+  rewrite (H a (or_introl eq_refl)). rewrite IH; [reflexivity|]. intros x Hx. apply H. right. exact Hx.
+Qed.
+
+Lemma in_keys_In k ks : in_keys k ks = true <-> In k ks.
+Proof.
+  unfold in_keys. rewrite existsb_exists. split.
+  - intros (x & Hx & E). apply key_eqb_eq in E. subst. exact Hx.
+  - intro H. exists k. split; [exact H | apply key_eqb_refl].
+Qed.
+
+Lemma in_keys_false k ks : in_keys k ks = false <-> ~ In k ks.
+Proof.
+  rewrite <- in_keys_In. destruct (in_keys k ks); split; intro H.
+  - discriminate.
+  - exfalso. apply H. reflexivity.
+  - intro; discriminate.
+  - reflexivity.
+Qed.
+
+Lemma nodup_keys_NoDup ks : nodup_keys ks = true <-> NoDup ks.
+Proof.
+  induction ks as [|k ks IH]; simpl.
+  - split; [constructor | reflexivity].
+  - rewrite andb_true_iff, negb_true_iff, in_keys_false, IH. split.
+    + intros [H1 H2]. constructor; assumption.
+    + intro H. inversion H; subst. auto.
+Qed.
+
+Lemma NoDup_app_intro {A : Type} (a b : list A) :
+  NoDup a -> NoDup b -> (forall x, In x a -> ~ In x b) -> NoDup (a ++ b).
+Proof.
+  induction a as [|x a IH]; simpl; intros Ha Hb Hd; [exact Hb|].
+  inversion Ha; subst. constructor.
+  - rewrite in_app_iff. intros [H|H]; [contradiction|]. exact (Hd x (or_introl eq_refl) H).
+  - apply IH; auto.
+Qed.
+
+Lemma NoDup_app_inv {A : Type} (a b : list A) :
+  NoDup (a ++ b) -> NoDup a /\ NoDup b /\ (forall x, In x a -> ~ In x b).
+Proof.
+  induction a as [|x a IH]; simpl; intro H.
+  - repeat split; [constructor | exact H | intros x []].
+  - inversion H; subst. destruct (IH H3) as (Ha & Hb & Hd). repeat split.
+    + constructor; [|exact Ha]. intro Hx. apply H2. apply in_app_iff. left. exact Hx.
+    + exact Hb.
+    + intros y [->|Hy]; [|apply Hd; exact Hy]. intro Hy. apply H2. apply in_app_iff. right. exact Hy.
+Qed.
+
+Lemma NoDup_filter' {A : Type} (p : A -> bool) (l : list A) : NoDup l -> NoDup (filter p l).
+Proof.
+  induction l as [|a l IH]; simpl; intro H; [constructor|]. inversion H; subst.
+  destruct (p a); [constructor|]; auto. rewrite filter_In. tauto.
+Qed.
+
+Lemma NoDup_map_filter {A B : Type} (f : A -> B) (p : A -> bool) (l : list A) :
+  NoDup (map f l) -> NoDup (map f (filter p l)).
+Proof.
+  induction l as [|a l IH]; simpl; intro H; [constructor|]. inversion H; subst.
+  destruct (p a); simpl; [constructor|]; auto.
+  rewrite in_map_iff. intros (x & E & Hx). apply filter_In in Hx as [Hx _].
+  apply H2. rewrite <- E. apply in_map. exact Hx.
+Qed.
+
+(* ---------------------------------------------------------------------------------------- *)
+(* The memory backend against the specification, on well-formed stores and requests          *)
+
+Arguments rec_obs : simpl never.
+Arguments obs_cond : simpl never.
+
+Lemma mfind_none rs k r : mfind rs k = None -> In r rs -> tk_match r k = false.
+Proof.
+  induction rs as [|a rs IH]; simpl; intros H Hin; [contradiction|].
+  destruct (tk_match a k) eqn:E; [discriminate|]. destruct Hin as [->|Hin]; auto.
+Qed.
+
+Lemma mfind_some rs k r : mfind rs k = Some r -> In r rs /\ tk_match r k = true.
+Proof.
+  induction rs as [|a rs IH]; simpl; intro H; [discriminate|].
+  destruct (tk_match a k) eqn:E.
+  - inversion H; subst. auto.
+  - destruct (IH H). auto.
+Qed.
+
+Lemma lookup_obs rs k :
+  forallb wf_rec rs = true -> wf_key k = true ->
+  lookup k (map rec_obs rs) = option_map (fun r => snd (rec_obs r)) (mfind rs k).
+Proof.
+  intros Hrs Hk. induction rs as [|a rs IH]; simpl; [reflexivity|].
+  simpl in Hrs. apply andb_true_iff in Hrs as [Ha Hrs].
+  apply wf_rec_inv in Ha as (_ & Hc & _).
+  rewrite (match_wf a k Hc Hk). destruct (key_eqb (rec_key a) k); [reflexivity|]. apply IH. exact Hrs.
+Qed.
+
+Lemma lookup_none_keys k ts : lookup k ts = None <-> ~ In k (map fst ts).
+Proof.
+  induction ts as [|[k' c] ts IH]; simpl.
+  - tauto.
+  - destruct (key_eqb k' k) eqn:E.
+    + apply key_eqb_eq in E. subst. split; [discriminate|]. intro H. exfalso. apply H. left. reflexivity.
+    + apply key_eqb_neq in E. rewrite IH. split; [intros H [H1|H1]; [contradiction|auto] | intros H H1; apply H; right; exact H1].
+Qed.
+
+Lemma sanitize_deletes_spec rs ig dels :
+  forallb wf_rec rs = true -> forallb wf_key dels = true ->
+  match sanitize_deletes rs ig dels with
+  | inl e => spec_del_err ig dels (map rec_obs rs) = Some e
+  | inr fl => spec_del_err ig dels (map rec_obs rs) = None
+              /\ Forall2 (fun d f => f = true -> mfind rs d = None) dels fl
+  end.
+Proof.
+  intros Hrs. induction dels as [|d ds IH]; simpl; intro Hd.
+  - split; [reflexivity | constructor].
+  - apply andb_true_iff in Hd as [Hd Hds]. specialize (IH Hds).
+    rewrite (lookup_obs rs d Hrs Hd).
+    destruct (mfind rs d) as [r|] eqn:Ef; simpl.
+    + destruct (sanitize_deletes rs ig ds) as [e|fl]; [exact IH|].
+      destruct IH as [IH1 IH2]. split; [exact IH1|]. constructor; [discriminate | exact IH2].
+    + destruct ig; [|reflexivity].
+      destruct (sanitize_deletes rs true ds) as [e|fl]; [exact IH|].
+      destruct IH as [IH1 IH2]. split; [exact IH1|]. constructor; [auto | exact IH2].
+Qed.
+
+(* unconditional: flagged ("missing") deletes match nothing, so the flags are immaterial *)
+Lemma sanitize_deletes_flags rs ig dels fl :
+  sanitize_deletes rs ig dels = inr fl -> Forall2 (fun d f => f = true -> mfind rs d = None) dels fl.
+Proof.
+  revert fl. induction dels as [|d ds IH]; simpl; intros fl H.
+  - inversion H. constructor.
+  - destruct (sanitize_deletes rs ig ds) as [e|fl'] eqn:E.
+    + destruct (mfind rs d); [discriminate|]. destruct ig; discriminate.
+    + destruct (mfind rs d) eqn:Ef.
+      * inversion H; subst. constructor; [discriminate | apply IH; reflexivity].
+      * destruct ig; [|discriminate]. inversion H; subst. constructor; [auto | apply IH; reflexivity].
+Qed.
+
+Lemma deleted_by_flags rs dels fl r :
+  Forall2 (fun d f => f = true -> mfind rs d = None) dels fl -> In r rs ->
+  deleted_by (combine dels fl) r = existsb (tk_match r) dels.
+Proof.
+  intros HF Hin. unfold deleted_by. induction HF as [|d f ds fl' Hdf HF IH]; simpl; [reflexivity|].
+  rewrite IH. f_equal. destruct f; simpl; [|apply andb_true_r].
+  rewrite (mfind_none rs d r (Hdf eq_refl) Hin). reflexivity.
+Qed.
+
+Lemma mem_same_obs r c :
+  wf_ctx (m_cctx r) = true -> wf_ctx (cond_ctx c) = true ->
+  mem_same_cond r c = true -> snd (rec_obs r) = obs_cond c.
+Proof.
+  unfold mem_same_cond, rec_obs, obs_cond. simpl. intros H1 H2 H.
+  apply andb_true_iff in H as [Hn Ht]. apply beqb_eq in Hn, Ht. rewrite Hn.
+  destruct (cond_name c); [reflexivity|]. simpl. f_equal.
+  destruct (m_cctx r) as [|t1], (cond_ctx c) as [|t2]; simpl in *; try reflexivity.
+  - subst t2. rewrite beqb_refl in H2. discriminate.
+  - subst t1. rewrite beqb_refl in H1. discriminate.
+  - exact Ht.
+Qed.
+
+Lemma sanitize_writes_spec rs ig wrs :
+  forallb wf_rec rs = true ->
+  forallb (fun w => wf_key (w_key w)) wrs = true ->
+  forallb (fun w => wf_ctx (cond_ctx (w_cond w))) wrs = true ->
+  (ig = true -> forall w r, In w wrs -> mfind rs (w_key w) = Some r ->
+      ocond_eqb (snd (rec_obs r)) (obs_cond (w_cond w)) = true -> mem_same_cond r (w_cond w) = true) ->
+  sanitize_writes rs ig wrs = spec_wr_err ig wrs (map rec_obs rs).
+Proof.
+  intros Hrs. induction wrs as [|w ws IH]; simpl; intros Hk Hc Ht; [reflexivity|].
+  apply andb_true_iff in Hk as [Hk Hks]. apply andb_true_iff in Hc as [Hc Hcs].
+  assert (IH' : sanitize_writes rs ig ws = spec_wr_err ig ws (map rec_obs rs)).
+  { apply IH; auto. }
+  rewrite (lookup_obs rs (w_key w) Hrs Hk).
+  destruct (mfind rs (w_key w)) as [r|] eqn:Ef; simpl; [|exact IH'].
+  destruct ig; [|reflexivity].
+  change (norm_cond (m_cname r) (m_cctx r)) with (snd (rec_obs r)).
+  destruct (mem_same_cond r (w_cond w)) eqn:Em.
+  - assert (Hr : In r rs) by (apply mfind_some in Ef; tauto).
+    assert (Hwr : wf_ctx (m_cctx r) = true).
+    { rewrite forallb_forall in Hrs. apply Hrs in Hr. apply wf_rec_inv in Hr. tauto. }
+    rewrite (mem_same_obs r (w_cond w) Hwr Hc Em).
+    replace (ocond_eqb (obs_cond (w_cond w)) (obs_cond (w_cond w))) with true
+      by (symmetry; apply ocond_eqb_eq; reflexivity).
+    exact IH'.
+  - destruct (ocond_eqb (snd (rec_obs r)) (obs_cond (w_cond w))) eqn:Eo; [|reflexivity].
+    rewrite (Ht eq_refl w r (or_introl eq_refl) Ef Eo) in Em. discriminate.
+Qed.
+
+Lemma trig_mem_ctx_false ondup wrs st :
+  trig_mem_ctx ondup wrs st = false ->
+  opt_ignore ondup = true -> forall w r, In w wrs -> mfind (tuples st) (w_key w) = Some r ->
+  ocond_eqb (snd (rec_obs r)) (obs_cond (w_cond w)) = true -> mem_same_cond r (w_cond w) = true.
+Proof.
+  unfold trig_mem_ctx. intros H Hig w r Hin Ef Eo. rewrite Hig, andb_true_l in H.
+  destruct (mem_same_cond r (w_cond w)) eqn:Em; [reflexivity|]. exfalso.
+  apply not_true_iff_false in H. apply H. apply existsb_exists. exists w. split; [exact Hin|].
+  rewrite Ef, Eo, Em. reflexivity.
+Qed.
+
+(* the write loop on well-formed input: exactly the items that are not present are appended *)
+Lemma write_loop_wf now (present : witem -> bool) wrs : forall recs log,
+  forallb (fun w => wf_key (w_key w)) wrs = true ->
+  NoDup (map w_key wrs) ->
+  (forall r, In r recs -> mem c_colon (m_otype r) = false) ->
+  (forall w, In w wrs -> existsb (fun et => key_eqb (rec_key et) (w_key w)) recs = present w) ->
+  write_loop now wrs recs log =
+    (recs ++ map new_rec (filter (fun w => negb (present w)) wrs),
+     log ++ map (wr_change now) (filter (fun w => negb (present w)) wrs)).
+Proof.
+  induction wrs as [|w ws IH]; simpl; intros recs log Hk Hnd Hc Hp.
+  - rewrite !app_nil_r. reflexivity.
+  - apply andb_true_iff in Hk as [Hk Hks]. inversion Hnd as [|? ? Hnin Hnd']; subst.
+    assert (Em : existsb (fun et => tk_match et (w_key w)) recs = present w).
+    { rewrite <- (Hp w (or_introl eq_refl)). apply existsb_ext'. intros x Hx. apply match_wf; auto. }
+    rewrite Em. destruct (present w) eqn:Ep; simpl.
+    + apply IH; auto.
+    + rewrite IH; auto.
+      * rewrite <- !app_assoc. reflexivity.
+      * intros r Hr. apply in_app_iff in Hr as [Hr|[<-|[]]]; [auto | apply new_rec_nocolon].
+      * intros w' Hw'. rewrite existsb_app. simpl. rewrite (Hp w' (or_intror Hw')).
+        rewrite (new_rec_key w Hk).
+        replace (key_eqb (w_key w) (w_key w')) with false; [destruct (present w'); reflexivity|].
+        symmetry. apply key_eqb_neq. intro E. apply Hnin. rewrite E. apply in_map. exact Hw'.
+Qed.
+
+Lemma existsb_key_lookup rs k :
+  existsb (fun et => key_eqb (rec_key et) k) rs =
+  match lookup k (map rec_obs rs) with Some _ => true | None => false end.
+Proof.
+  induction rs as [|a rs IH]; simpl; [reflexivity|].
+  destruct (key_eqb (rec_key a) k); simpl; [reflexivity | exact IH].
+Qed.
+
+Lemma lookup_filter_notin k dels ts :
+  ~ In k dels ->
+  lookup k (filter (fun t => negb (in_keys (fst t) dels)) ts) = lookup k ts.
+Proof.
+  intro Hn. induction ts as [|[k' c] ts IH]; simpl; [reflexivity|].
+  destruct (in_keys k' dels) eqn:E; simpl.
+  - destruct (key_eqb k' k) eqn:Ek; [|exact IH].
+    apply key_eqb_eq in Ek. subst. apply in_keys_In in E. contradiction.
+  - rewrite IH. reflexivity.
+Qed.
+
+Lemma wf_request_inv dels wrs :
+  wf_request dels wrs = true ->
+  forallb wf_key dels = true /\ forallb (fun w => wf_key (w_key w)) wrs = true
+  /\ NoDup dels /\ NoDup (map w_key wrs) /\ (forall k, In k dels -> ~ In k (map w_key wrs))
+  /\ forallb (fun w => wf_ctx (cond_ctx (w_cond w))) wrs = true.
+Proof.
+  unfold wf_request, req_keys. intro H.
+  apply andb_true_iff in H as [H Hc]. apply andb_true_iff in H as [Hk Hn].
+  rewrite forallb_app in Hk. apply andb_true_iff in Hk as [Hk1 Hk2].
+  apply nodup_keys_NoDup in Hn. apply NoDup_app_inv in Hn as (Hn1 & Hn2 & Hd).
+  assert (Hk2' : forallb (fun w => wf_key (w_key w)) wrs = true).
+  { clear - Hk2. induction wrs as [|w ws IH]; simpl in *; [reflexivity|].
+    apply andb_true_iff in Hk2 as [-> H2]. simpl. apply IH. exact H2. }
+  repeat split; auto.
+Qed.
+
+Definition present_in (ts : list otuple) (w : witem) : bool :=
+  match lookup (w_key w) ts with Some _ => true | None => false end.
+
+Lemma spec_new_present wrs ts :
+  spec_new wrs ts = map (fun w => (w_key w, obs_cond (w_cond w))) (filter (fun w => negb (present_in ts w)) wrs).
+Proof.
+  unfold spec_new. f_equal. apply filter_ext_in'. intros w _. unfold present_in.
+  destruct (lookup (w_key w) ts); reflexivity.
+Qed.
+
+Lemma obs_new_recs ws :
+  forallb (fun w => wf_key (w_key w)) ws = true ->
+  map rec_obs (map new_rec ws) = map (fun w => (w_key w, obs_cond (w_cond w))) ws.
+Proof.
+  induction ws as [|w ws IH]; simpl; intro H; [reflexivity|].
+  apply andb_true_iff in H as [H1 H2]. rewrite (new_rec_obs w H1), IH; auto.
+Qed.
+
+Lemma obs_wr_changes now ws :
+  forallb (fun w => wf_key (w_key w)) ws = true ->
+  map obs_change (map (wr_change now) ws) =
+  map (fun t : otuple => (OpWrite, fst t, snd t)) (map (fun w => (w_key w, obs_cond (w_cond w))) ws).
+Proof.
+  induction ws as [|w ws IH]; simpl; intro H; [reflexivity|].
+  apply andb_true_iff in H as [H1 H2]. rewrite IH; auto. f_equal.
+  unfold obs_change, wr_change. simpl.
+  change (norm_cond (m_cname (new_rec w)) (m_cctx (new_rec w))) with (snd (rec_obs (new_rec w))).
+  rewrite (new_rec_key w H1), (new_rec_obs w H1). reflexivity.
+Qed.
+
+Lemma obs_del_changes now rs :
+  map obs_change (map (del_change now) rs) =
+  map (fun t : otuple => (OpDelete, fst t, ([], []))) (map rec_obs rs).
+Proof. induction rs as [|r rs IH]; simpl; [reflexivity|]. rewrite IH. reflexivity. Qed.
+
+Lemma forallb_filter_sub {A : Type} (p q : A -> bool) l :
+  forallb p l = true -> forallb p (filter q l) = true.
+Proof.
+  rewrite !forallb_forall. intros H x Hx. apply filter_In in Hx as [Hx _]. apply H. exact Hx.
+Qed.
+
+Theorem write_options_exact_lemma ondup onmiss dels wrs now st :
+  wf_store st = true -> wf_request dels wrs = true -> trig_mem_ctx ondup wrs st = false ->
+  match spec_err ondup onmiss dels wrs (obs_tuples st) with
+  | Some e => mem_write ondup onmiss dels wrs now st = (WErr e, st)
+  | None =>
+      exists st', mem_write ondup onmiss dels wrs now st = (WOk, st')
+        /\ obs_tuples st' = spec_kept dels (obs_tuples st) ++ spec_new wrs (obs_tuples st)
+        /\ obs_log st' = obs_log st ++ spec_dlog dels (obs_tuples st) ++ spec_wlog wrs (obs_tuples st)
+        /\ wf_store st' = true
+  end.
+Proof.
+  intros Hst Hreq Htrig. unfold wf_store in Hst. apply andb_true_iff in Hst as [Hrs Hnd].
+  apply nodup_keys_NoDup in Hnd.
+  apply wf_request_inv in Hreq as (Hdk & Hwk & Hdn & Hwn & Hdisj & Hwc).
+  unfold spec_err, mem_write, obs_tuples.
+  pose proof (sanitize_deletes_spec (tuples st) (opt_ignore onmiss) dels Hrs Hdk) as Hsd.
+  destruct (sanitize_deletes (tuples st) (opt_ignore onmiss) dels) as [e|fl].
+  { rewrite Hsd. reflexivity. }
+  destruct Hsd as [Hsd HF]. rewrite Hsd.
+  rewrite (sanitize_writes_spec (tuples st) (opt_ignore ondup) wrs Hrs Hwk Hwc
+             (trig_mem_ctx_false ondup wrs st Htrig)).
+  destruct (spec_wr_err (opt_ignore ondup) wrs (map rec_obs (tuples st))) as [e|]; [reflexivity|].
+  set (ts := map rec_obs (tuples st)).
+  (* the delete loop *)
+  assert (Hdel : forall r, In r (tuples st) -> deleted_by (combine dels fl) r = in_keys (rec_key r) dels).
+  { intros r Hr. rewrite (deleted_by_flags _ _ _ _ HF Hr). unfold in_keys. apply existsb_ext'.
+    intros d Hd. rewrite forallb_forall in Hrs, Hdk. apply match_wf; [|apply Hdk; exact Hd].
+    apply Hrs in Hr. apply wf_rec_inv in Hr. tauto. }
+  rewrite (filter_ext_in' _ (fun r => in_keys (rec_key r) dels) _ Hdel).
+  rewrite (filter_ext_in' (fun r => negb (deleted_by (combine dels fl) r))
+             (fun r => negb (in_keys (rec_key r) dels)) (tuples st))
+    by (intros r Hr; rewrite (Hdel r Hr); reflexivity).
+  set (kept := filter (fun r => negb (in_keys (rec_key r) dels)) (tuples st)).
+  set (gone := filter (fun r => in_keys (rec_key r) dels) (tuples st)).
+  assert (Hkept : map rec_obs kept = spec_kept dels ts).
+  { unfold kept, spec_kept, ts. rewrite <- filter_map_comm. reflexivity. }
+  assert (Hgone : map rec_obs gone = spec_deleted dels ts).
+  { unfold gone, spec_deleted, ts. rewrite <- filter_map_comm. reflexivity. }
+  (* the write loop *)
+  rewrite (write_loop_wf now (present_in ts) wrs kept _ Hwk Hwn).
+  2:{ intros r Hr. apply filter_In in Hr as [Hr _]. rewrite forallb_forall in Hrs.
+      apply Hrs in Hr. apply wf_rec_inv in Hr. tauto. }
+  2:{ intros w Hw. rewrite existsb_key_lookup, Hkept. unfold spec_kept, present_in.
+      rewrite lookup_filter_notin; [reflexivity|]. intro Hin. apply (Hdisj _ Hin). apply in_map. exact Hw. }
+  set (news := filter (fun w => negb (present_in ts w)) wrs).
+  assert (Hnk : forallb (fun w => wf_key (w_key w)) news = true) by (apply forallb_filter_sub; exact Hwk).
+  eexists. split; [reflexivity|]. simpl. repeat split.
+  - rewrite map_app, Hkept, (obs_new_recs news Hnk), spec_new_present. reflexivity.
+  - unfold obs_log. simpl. rewrite !map_app, obs_del_changes, (obs_wr_changes now news Hnk), Hgone.
+    unfold spec_dlog, spec_wlog. rewrite spec_new_present, <- app_assoc. reflexivity.
+  - unfold wf_store. simpl. apply andb_true_iff. split.
+    + rewrite forallb_app. apply andb_true_iff. split; [apply forallb_filter_sub; exact Hrs|].
+      rewrite forallb_forall. intros r Hr. apply in_map_iff in Hr as (w & <- & Hw).
+      apply filter_In in Hw as [Hw _]. rewrite forallb_forall in Hwk, Hwc. apply new_rec_wf; auto.
+    + apply nodup_keys_NoDup. rewrite map_app. apply NoDup_app_intro.
+      * apply NoDup_map_filter. exact Hnd.
+      * assert (E : map rec_key (map new_rec news) = map w_key news).
+        { rewrite map_map. apply map_ext_in. intros w Hw. apply new_rec_key.
+          rewrite forallb_forall in Hnk. apply Hnk. exact Hw. }
+        rewrite E. apply NoDup_map_filter. exact Hwn.
+      * intros k Hk1 Hk2. apply in_map_iff in Hk1 as (r & <- & Hr).
+        apply filter_In in Hr as [Hr _].
+        apply in_map_iff in Hk2 as (r2 & E2 & Hr2). apply in_map_iff in Hr2 as (w & <- & Hw).
+        apply filter_In in Hw as [Hw Hp]. rewrite forallb_forall in Hwk.
+        rewrite (new_rec_key w (Hwk w Hw)) in E2. unfold present_in in Hp.
+        destruct (lookup (w_key w) ts) eqn:El; [discriminate|].
+        apply lookup_none_keys in El. apply El. unfold ts. rewrite map_map.
+        apply in_map_iff. exists r. split; [|exact Hr]. simpl. symmetry. exact E2.
+Qed.
+
+(* the boolean truth table and the first-error function agree on success *)
+Lemma spec_del_err_none ig dels ts :
+  spec_del_err ig dels ts = None <->
+  forallb (fun d => match lookup d ts with Some _ => true | None => ig end) dels = true.
+Proof.
+  induction dels as [|d ds IH]; simpl; [tauto|].
+  destruct (lookup d ts); simpl; [exact IH|]. destruct ig; simpl; [exact IH|]. split; discriminate.
+Qed.
+
+Lemma spec_wr_err_none ig wrs ts :
+  spec_wr_err ig wrs ts = None <->
+  forallb (fun w => match lookup (w_key w) ts with
+                    | None => true
+                    | Some c => ig && ocond_eqb c (obs_cond (w_cond w)) end) wrs = true.
+Proof.
+  induction wrs as [|w ws IH]; simpl; [tauto|].
+  destruct (lookup (w_key w) ts) as [c|]; simpl; [|exact IH].
+  destruct ig; simpl; [|split; discriminate].
+  destruct (ocond_eqb c (obs_cond (w_cond w))); simpl; [exact IH | split; discriminate].
+Qed.
+
+Lemma spec_err_ok ondup onmiss dels wrs ts :
+  spec_err ondup onmiss dels wrs ts = None <-> spec_ok ondup onmiss dels wrs ts = true.
+Proof.
+  unfold spec_err, spec_ok. rewrite andb_true_iff, <- spec_del_err_none, <- spec_wr_err_none.
+  destruct (spec_del_err (opt_ignore onmiss) dels ts); split; try tauto; try discriminate;
+    try (intros [H _]; discriminate).
+Qed.
+
+(* C12, truth table, in the form used by Props/C12.v *)
+Theorem write_options_exact_partial_lemma ondup onmiss dels wrs now st :
+  wf_store st = true -> wf_request dels wrs = true -> trig_mem_ctx ondup wrs st = false ->
+  match spec_write ondup onmiss dels wrs (obs_tuples st) with
+  | None => exists e, mem_write ondup onmiss dels wrs now st = (WErr e, st)
+  | Some (ts', dlog, wlog) =>
+      exists st', mem_write ondup onmiss dels wrs now st = (WOk, st')
+        /\ obs_tuples st' = ts' /\ obs_log st' = obs_log st ++ dlog ++ wlog /\ wf_store st' = true
+  end.
+Proof.
+  intros H1 H2 H3. pose proof (write_options_exact_lemma ondup onmiss dels wrs now st H1 H2 H3) as H.
+  unfold spec_write. destruct (spec_ok ondup onmiss dels wrs (obs_tuples st)) eqn:E.
+  - apply spec_err_ok in E. rewrite E in H. exact H.
+  - destruct (spec_err ondup onmiss dels wrs (obs_tuples st)) as [e|] eqn:E2.
+    + exists e. exact H.
+    + apply spec_err_ok in E2. rewrite E2 in E. discriminate.
+Qed.
+
+(* ---- the deviations of the unchanged code, as witnesses --------------------------------- *)
+
+Definition b_doc1 : bytes := [100; 111; 99; 58; 49].      (* doc:1 *)
+Definition b_doc2 : bytes := [100; 111; 99; 58; 50].      (* doc:2 *)
+Definition b_doc_ : bytes := [100; 111; 99; 58].          (* doc:  *)
+Definition b_viewer : bytes := [118; 105; 101; 119; 101; 114].
+Definition b_usera : bytes := [117; 115; 101; 114; 58; 97].  (* user:a *)
+Definition b_c1 : bytes := [99; 49].
+Definition k_d1 : key := mkKey b_doc1 b_viewer b_usera.
+Definition k_d2 : key := mkKey b_doc2 b_viewer b_usera.
+Definition k_dpat : key := mkKey b_doc_ b_viewer b_usera.
+
+(* a store holding doc:1#viewer@user:a with condition c1 and a nil context *)
+Definition st_c1_nil : mstate :=
+  snd (mem_write OError OError [] [mkW k_d1 (Some (b_c1, CNil)) true] 1 empty_state).
+
+(* on_duplicate=ignore, identical tuple but the context spelled {} instead of nil: the
+   specification skips the item, the memory backend reports a condition conflict *)
+Theorem write_options_exact_refuted_ctx_lemma :
+  exists ondup onmiss dels wrs now st,
+    wf_store st = true /\ wf_request dels wrs = true /\
+    spec_write ondup onmiss dels wrs (obs_tuples st) = Some (obs_tuples st, [], []) /\
+    mem_write ondup onmiss dels wrs now st = (WErr ECondConflict, st).
+Proof.
+  exists OIgnore, OError, [], [mkW k_d1 (Some (b_c1, CStruct [])) true], 2, st_c1_nil.
+  vm_compute. repeat split; reflexivity.
+Qed.
+
+(* a delete whose object has no id ("doc:") passes the command layer; the specification says the
+   tuple does not exist (the request fails under on_missing=error), the memory backend deletes
+   every doc tuple with that relation and user and logs one entry for each *)
+Definition st_two_docs : mstate :=
+  snd (mem_write OError OError [] [mkW k_d1 None true; mkW k_d2 None true] 1 empty_state).
+
+Theorem write_options_exact_refuted_partial_key_lemma :
+  exists dels st st',
+    wf_store st = true /\ cmd_validate OError OError dels [] = None /\
+    spec_write OError OError dels [] (obs_tuples st) = None /\
+    mem_cmd_write OError OError dels [] 2 st = (WOk, st') /\
+    obs_tuples st' = [] /\ length (changes st') = (length (changes st) + 2)%nat /\ length dels = 1%nat.
+Proof.
+  exists [k_dpat], st_two_docs. eexists. vm_compute. repeat split; reflexivity.
+Qed.
+
+(* non-vacuity: a well-formed store and request satisfying every hypothesis of the truth table *)
+Example write_options_exact_nonvacuous :
+  wf_store st_two_docs = true /\
+  wf_request [k_d1] [mkW k_d2 None true; mkW (mkKey b_doc1 b_viewer [117; 115; 101; 114; 58; 98]) (Some (b_c1, CStruct [])) true] = true /\
+  trig_mem_ctx OIgnore [mkW k_d2 None true] st_two_docs = false.
+Proof. vm_compute. repeat split; reflexivity. Qed.
